@@ -386,6 +386,11 @@ func (e *wEng) window(v ssa.Value) *win {
 		if isByteSlice(x.Type()) {
 			w = &win{base: x, lo: linConst(0), hi: e.lin(x.Len)}
 		}
+	case *ssa.Call:
+		// a fresh buffer holding the big-endian form of an integer (its own base, filled whole)
+		if k, _, ok := freshBigEndian(x); ok {
+			w = &win{base: x, lo: linConst(0), hi: linConst(k)}
+		}
 	case *ssa.Slice:
 		var bw *win
 		if a, ok := x.X.(*ssa.Alloc); ok {
@@ -731,6 +736,26 @@ var bigEndianWidth = map[string]int64{
 	"(binary.bigEndian).PutUint16": 2, "(binary.bigEndian).PutUint32": 4, "(binary.bigEndian).PutUint64": 8,
 }
 
+// bigEndianAppend: binary.BigEndian.AppendUintN(b, x) returns b followed by the N/8 bytes of the
+// big-endian form of x.  With b = nil the result IS that form: a fresh buffer of exactly N/8
+// bytes, filled whole by the call (what make([]byte, N/8) + PutUintN establish in two steps).
+var bigEndianAppend = map[string]int64{
+	"(binary.bigEndian).AppendUint16": 2, "(binary.bigEndian).AppendUint32": 4, "(binary.bigEndian).AppendUint64": 8,
+}
+
+// freshBigEndian: v is AppendUintN(nil, x); returns N/8 and x.
+func freshBigEndian(v ssa.Value) (int64, ssa.Value, bool) {
+	c, ok := v.(*ssa.Call)
+	if !ok {
+		return 0, nil, false
+	}
+	k, ok := bigEndianAppend[CalleeOf(c)]
+	if !ok || len(c.Call.Args) != 3 || !isNilConst(c.Call.Args[1]) {
+		return 0, nil, false
+	}
+	return k, c.Call.Args[2], true
+}
+
 // accesses lists every use of every byte window of the function.  A use the
 // engine does not understand is reported as kind "escape:…" (rules fail on it).
 func (e *wEng) accesses() []access {
@@ -751,6 +776,16 @@ func (e *wEng) accesses() []access {
 		case *ssa.Slice:
 			if _, ok := x.X.(*ssa.Alloc); ok && e.window(x) != nil {
 				roots = append(roots, x)
+			}
+		case *ssa.Call:
+			if k, _, ok := freshBigEndian(x); ok {
+				// the call is both the buffer and the one write that fills it: bytes 0 … k−1
+				roots = append(roots, x)
+				a := access{in: x, v: x, w: e.window(x), kind: "putN", arg: -1}
+				for j := int64(0); j < k; j++ {
+					a.pos = append(a.pos, linConst(j))
+				}
+				out = append(out, a)
 			}
 		}
 	})
